@@ -581,7 +581,7 @@ fn enabled_c06(w: &RouterWorld, cfg: &Cfg, v: &mut Vec<(Act, u8)>) {
             }
             // every two-packet batch over {publish QoS 0/1/2, PINGREQ, SUBSCRIBE, UNSUBSCRIBE}
             // in which a reply is owed (c1: a requester that nothing else wakes up)
-            if c == 1 || cfg.variant == 0 {
+            if c == 1 {
                 for a in 0..super::hostile::PAIR_KINDS {
                     for b in 0..super::hostile::PAIR_KINDS {
                         if (a, b) != (0, 0) {
